@@ -165,7 +165,92 @@ func modelDump(p *Pool) string {
 			items = append(items, fmt.Sprintf("V%s:n=%s;ix=%d;p=%s", h, nameNum(v.Name()), v.Index(), optEnum(p, v.ParentEnum())))
 		}
 	}
-	return strings.Join(items, "|")
+	// layer 3: signals with their shared definitions, reference sets, assignments, custom builders
+	refs := map[string][]string{}
+	addRef := func(tag string, h int, xs []string) {
+		if len(xs) > 0 {
+			refs[tag] = append(refs[tag], fmt.Sprintf("%s%d:%s", tag, h, joinSorted(xs, true)))
+		}
+	}
+	for _, e := range p.ents {
+		switch e.K {
+		case KSig:
+			t, u, en, k := "-", "-", "-", "2"
+			switch e.Sig.Kind() {
+			case acme.SignalKindStandard:
+				k = "0"
+				ss, _ := e.Sig.ToStandard()
+				t = p.hid(ss.Type().EntityID())
+				if ss.Unit() != nil {
+					u = p.hid(ss.Unit().EntityID())
+				}
+			case acme.SignalKindEnum:
+				k = "1"
+				es, _ := e.Sig.ToEnum()
+				en = p.hid(es.Enum().EntityID())
+			}
+			if k != "2" {
+				items = append(items, fmt.Sprintf("S%d:k=%s;t=%s;u=%s;e=%s", e.H, k, t, u, en))
+			}
+			addRef("As", e.H, assignedAttrs(p, e.Sig.AttributeAssignments()))
+		case KType:
+			addRef("Rt", e.H, idsOf(p, e.Type.VerifRefs()))
+		case KUnit:
+			addRef("Ru", e.H, idsOf(p, e.Unit.VerifRefs()))
+		case KEnum:
+			addRef("Re", e.H, idsOf(p, e.Enum.VerifRefs()))
+		case KAttr:
+			var xs []string
+			for _, r := range e.Attr.References() {
+				xs = append(xs, entRef(p, r.Entity()))
+			}
+			addRef("Ra", e.H, xs)
+		case KBuilder:
+			addRef("Rc", e.H, idsOf(p, e.Bld.VerifRefs()))
+		case KBus:
+			addRef("As", e.H, assignedAttrs(p, e.Bus.AttributeAssignments()))
+			if !e.Bus.VerifIsDefCANIDBuilder() && e.Bus.CANIDBuilder() != nil {
+				refs["Bb"] = append(refs["Bb"], fmt.Sprintf("Bb%d:%s", e.H, p.hid(e.Bus.CANIDBuilder().EntityID())))
+			}
+		case KNode:
+			addRef("As", e.H, assignedAttrs(p, e.Node.AttributeAssignments()))
+		case KMsg:
+			addRef("As", e.H, assignedAttrs(p, e.Msg.AttributeAssignments()))
+		}
+	}
+	// entity items in handle order (the first character is the kind letter, then the handle)
+	sort.SliceStable(items, func(i, j int) bool { return itemHandle(items[i]) < itemHandle(items[j]) })
+	out := strings.Join(items, "|")
+	for _, tag := range []string{"Rt", "Ru", "Re", "Ra", "As", "Rc", "Bb"} {
+		for _, x := range refs[tag] {
+			out += "|" + x
+		}
+	}
+	return out
+}
+
+func itemHandle(s string) int {
+	n := 0
+	for i := 1; i < len(s) && s[i] >= '0' && s[i] <= '9'; i++ {
+		n = n*10 + int(s[i]-'0')
+	}
+	return n
+}
+
+func idsOf[R any](p *Pool, m map[acme.EntityID]R) []string {
+	var xs []string
+	for id := range m {
+		xs = append(xs, p.hid(id))
+	}
+	return xs
+}
+
+func assignedAttrs(p *Pool, as []*acme.AttributeAssignment) []string {
+	var xs []string
+	for _, a := range as {
+		xs = append(xs, p.hid(a.Attribute().EntityID()))
+	}
+	return xs
 }
 
 // ---- whole-pool snapshot through the public getters --------------------------------------------
